@@ -1,24 +1,13 @@
 #!/usr/bin/env python3
-"""Python side of the Go -> Lean translation of the cache TTL functions (property C10).
+"""Lean programs of the replay search for the translated cache TTL functions (property C10); running the translator
+and building is done by tools/go2lean_tie.py.
 
-* `regenerate(repo, out)`: runs the translator (`go run ./cmd/cachettl <repo>`, standard library only, offline) and
-  writes lean/HeimdallModel/Gen/CacheTTLSrc.lean when it changed. When the source has left the translatable subset a
-  stub WITHOUT definitions is written and TranslateError raised: `Props/C10Src.lean` stops building (nothing else
-  imports the generated module, in particular not the shared driver).
 * `grid_program()`: a Lean program that evaluates the translated functions, the hand-written model and the
   specification predicate `ttlWithinSpec` on a boundary grid and prints, as JSON lines, every point at which the
   translated function differs from the model, breaks the specification or is not defined. Run with
   `lake env lean --run` (never through the shared driver).
 * `verdict_program(points)`: evaluates the specification on TTL values observed on the real code.
-
-Usage: cachettl.py <repo> <out.lean>
 """
-import json
-import os
-import subprocess
-import sys
-
-HERE = os.path.dirname(os.path.abspath(__file__))
 
 # mechanism name in the line protocol of the correspondence check (family c10mech) -> (Lean namespace below
 # Heimdall.Validity.Src, constructor of Heimdall.Validity.Mech, kind). kind "ptr": isCacheEnabled + getCacheTTL over a
@@ -34,73 +23,6 @@ MECHS = {
     "contextualizer": ("Contextualizer", ".contextualizer", "site"),
 }
 EXPIRING = ("introspection", "jwtkey", "generic", "clientcreds")
-
-
-class TranslateError(Exception):
-    pass
-
-
-def go_env():
-    env = dict(os.environ)
-    env.update({"GOFLAGS": "-mod=mod", "GOPROXY": "off", "GOSUMDB": "off", "GOTOOLCHAIN": "local"})
-    return env
-
-
-def translate(repo):
-    p = subprocess.run(["go", "run", "./cmd/cachettl", repo], cwd=HERE, env=go_env(), capture_output=True, text=True,
-                       timeout=600)
-    if p.returncode != 0:
-        msg = "\n".join(l for l in (p.stderr or p.stdout).strip().splitlines() if not l.startswith("exit status"))
-        raise TranslateError(msg[-900:])
-    if "def translationOk : Bool := true" not in p.stdout:
-        raise TranslateError("translator output is incomplete")
-    return p.stdout
-
-
-def render_stub(error):
-    msg = error.replace("-/", "- /").replace("\n", " ")[:700]
-    return ("-- STUB written by extract/go2lean: the translation FAILED (fail closed). Do not edit.\n"
-            f"/-! translation failed: {msg}\n\n"
-            "There are no definitions here on purpose: `Props/C10Src.lean` (the theorems about the translated source) "
-            "does not build\nuntil the source can be translated again. Nothing else imports this module. -/\n"
-            "namespace Heimdall.Validity.Src\n\n"
-            "def translationOk : Bool := false\n\n"
-            "end Heimdall.Validity.Src\n")
-
-
-def write_if_changed(out, text):
-    try:
-        with open(out) as fh:
-            if fh.read() == text:
-                return
-    except OSError:
-        pass
-    tmp = out + ".tmp%d" % os.getpid()
-    with open(tmp, "w") as fh:
-        fh.write(text)
-    os.replace(tmp, out)
-
-
-def regenerate(repo, out):
-    """writes the generated module; on failure writes the stub and raises TranslateError"""
-    try:
-        text = translate(repo)
-    except TranslateError as e:
-        write_if_changed(out, render_stub(str(e)))
-        raise
-    write_if_changed(out, text)
-    return text
-
-
-def translated_functions(text):
-    """the index of the generated header: [(lean name, go function, file:line)]"""
-    out = []
-    for line in text.splitlines():
-        if line.startswith("* `") and "` = " in line:
-            name, rest = line[3:].split("` = ", 1)
-            fn, _, pos = rest.rpartition(", ")
-            out.append({"lean": "Heimdall.Validity.Src." + name, "go": fn, "at": pos})
-    return out
 
 
 # ---------------------------------------------------------------------------------------------------------------
@@ -208,25 +130,3 @@ def verdict_program(points):
         lines.append(f"  IO.println (jStrs (ttlSpecVerdict (Mech.leeway {ctor}) ({_opt(p['cfg'])}) ({_opt(p['rem'])}) "
                      f"({ttl})))")
     return "\n".join(lines) + "\n"
-
-
-def run_lean(lean_dir, path, timeout=600):
-    p = subprocess.run(["lake", "env", "lean", "--run", path], cwd=lean_dir, capture_output=True, text=True,
-                       timeout=timeout)
-    rows = []
-    for line in p.stdout.splitlines():
-        line = line.strip()
-        if line.startswith("{") or line.startswith("["):
-            try:
-                rows.append(json.loads(line))
-            except ValueError:
-                pass
-    return p.returncode, rows, (p.stdout + p.stderr)[-3000:]
-
-
-if __name__ == "__main__":
-    try:
-        sys.stdout.write(regenerate(sys.argv[1], sys.argv[2]))
-    except TranslateError as e:
-        print("translation failed:", e, file=sys.stderr)
-        sys.exit(1)
